@@ -12,13 +12,13 @@ out = ["# Seeded changes: which check caught which change", "",
        "`caught(no-input)` = only `no-failing-input-found` (proof or correspondence broken); `MISSED` = the check stayed quiet.", "",
        "| change | round | verdict | replay(s) | what was changed (first words of the author's summary) |", "|---|---|---|---|---|"]
 cnt = {}
-for d in sorted(glob.glob("/verif/seeded/*_m*")):
+for d in sorted(glob.glob("/verif/seeded/*_m*"), key=lambda x: (os.path.basename(x).split("_m")[0], int(os.path.basename(x).split("_m")[1]))):
     n = os.path.basename(d)
     try: m = json.load(open(d + "/meta.json"))
     except Exception: m = {}
     r = rows.get(n, [n, "not run", ""])
     cnt[r[1]] = cnt.get(r[1], 0) + 1
-    rep = "; ".join(x.split("replay=")[1].split()[0].replace("replays/", "") for x in r[2].split(";") if "replay=" in x)[:90]
+    rep = "; ".join((x.split("replay=")[1].split() or ["?"])[0].replace("replays/", "") for x in r[2].split(";") if "replay=" in x)[:90]
     summ = " ".join(m.get("summary", "").split())[:150].replace("|", "/")
     out.append(f"| {n} | {m.get('round', 1)} | {r[1]} | {rep} | {summ} |")
 out += ["", "Totals: " + ", ".join(f"{k}: {v}" for k, v in sorted(cnt.items()))]
